@@ -18,8 +18,11 @@ def evaluate(prog):
     impl, raw, rc = run_fjv(prog)
     asis = run_fjm(prog, "as_is")
     ideal = run_fjm(prog, "ideal")
+    # the number of journal files (`journals`) is an internal observation: a difference there breaks the correspondence with
+    # the model, it is not by itself a failure of the property the program is checked for
+    from common import UNCOMPARED_OPS
     return dict(prog=prog, impl=impl, asis=asis, ideal=ideal, rc=rc,
-                d_spec=compare(prog, impl, ideal), d_corr=compare(prog, impl, asis))
+                d_spec=compare(prog, impl, ideal, ignore_ops=UNCOMPARED_OPS + ("journals",)), d_corr=compare(prog, impl, asis))
 
 
 def attribute(prog, impl):
